@@ -830,6 +830,194 @@ instance (a : Attrs) : Decidable a.iterOK := by unfold Attrs.iterOK; infer_insta
 instance (g : Top) : Decidable g.WF := by cases g <;> (unfold Top.WF; infer_instance)
 instance (P : Program) : Decidable P.WF := by unfold Program.WF; infer_instance
 
+/-! ## group names are never read
+
+Every definition of the model goes through the other fields of `Attrs` and through the position
+`GId`; so erasing the names changes nothing, call for call. -/
+
+theorem doDest_eraseName (O : Oracle) (a : Attrs) (ddd : Nat × DestData) (h : Hist) :
+    doDest O a.eraseName ddd h = doDest O a ddd h := by
+  have hr : ∀ h, destRange O h a.eraseName ddd.1 = destRange O h a ddd.1 := fun _ => rfl
+  unfold doDest
+  simp only [hr]
+
+theorem doGroup_eraseName (O : Oracle) (gid : GId) (a : Attrs) (data : List (Nat × DestData))
+    (h : Hist) : doGroup O gid a.eraseName data h = doGroup O gid a data h := by
+  unfold doGroup
+  rw [forEach_congr (fun ddd _ h => doDest_eraseName O a ddd h)]
+  rfl
+
+theorem specDest_eraseName (O : Oracle) (a : Attrs) (eqs : List Equation) (d : Nat) (h : Hist) :
+    specDest O a.eraseName eqs d h = specDest O a eqs d h := by
+  have hr : ∀ h, destRange O h a.eraseName d = destRange O h a d := fun _ => rfl
+  unfold specDest
+  simp only [hr]
+
+theorem specGroup_eraseName (O : Oracle) (gid : GId) (a : Attrs) (eqs : List Equation)
+    (h : Hist) : specGroup O gid a.eraseName eqs h = specGroup O gid a eqs h := by
+  unfold specGroup
+  rw [forEach_congr (fun d _ h => specDest_eraseName O a eqs d h)]
+  rfl
+
+theorem implIter_eraseName (O : Oracle) (gid : GId) (a : Attrs) (convEqs : List Equation)
+    (body : Hist → Hist) (fuel count : Nat) (h : Hist) :
+    implIter O gid a.eraseName convEqs body fuel count h
+      = implIter O gid a convEqs body fuel count h := by
+  induction fuel generalizing count h with
+  | zero => rfl
+  | succ f ih =>
+    simp only [implIter]
+    have h1 : a.eraseName.minIter = a.minIter := rfl
+    have h2 : a.eraseName.maxIter = a.maxIter := rfl
+    simp only [h1, h2, ih]
+
+theorem specIter_eraseName (O : Oracle) (a : Attrs) (convEqs : List Equation)
+    (body : Hist → Hist) (rem count : Nat) (h : Hist) :
+    specIter O a.eraseName convEqs body rem count h = specIter O a convEqs body rem count h := by
+  induction rem generalizing count h with
+  | zero => rfl
+  | succ r ih =>
+    simp only [specIter]
+    have h1 : a.eraseName.minIter = a.minIter := rfl
+    simp only [h1, ih]
+
+theorem wrapIter_eraseName (O : Oracle) (fuel : Nat) (gid : GId) (a : Attrs)
+    (convEqs : List Equation) (body : Hist → Hist) (h : Hist) :
+    wrapIter O fuel gid a.eraseName convEqs body h = wrapIter O fuel gid a convEqs body h := by
+  unfold wrapIter
+  rw [implIter_eraseName]
+  rfl
+
+theorem specRepeat_eraseName (O : Oracle) (a : Attrs) (convEqs : List Equation)
+    (body : Hist → Hist) (h : Hist) :
+    specRepeat O a.eraseName convEqs body h = specRepeat O a convEqs body h := by
+  unfold specRepeat
+  rw [specIter_eraseName]
+  rfl
+
+theorem wrapCond_eraseName (O : Oracle) (gid : GId) (a : Attrs) (body : Hist → Hist) (h : Hist) :
+    wrapCond O gid a.eraseName body h = wrapCond O gid a body h := rfl
+
+theorem doSub_eraseNames (O : Oracle) (gi : Nat) (l : Leaf) (k : Nat) (h : Hist) :
+    doSub O gi (l.eraseNames, k) h = doSub O gi (l, k) h := by
+  unfold doSub
+  show wrapCond O ⟨gi, some k⟩ l.attrs.eraseName
+      (doGroup O ⟨gi, some k⟩ l.attrs.eraseName (makeData l.eqs)) h = _
+  rw [wrapCond_eraseName]
+  exact wrapCond_congr O _ _ (fun h => doGroup_eraseName O _ _ _ h) h
+
+theorem specSub_eraseNames (O : Oracle) (gi : Nat) (l : Leaf) (k : Nat) (h : Hist) :
+    specSub O gi (l.eraseNames, k) h = specSub O gi (l, k) h := by
+  unfold specSub
+  show wrapCond O ⟨gi, some k⟩ l.attrs.eraseName
+      (specGroup O ⟨gi, some k⟩ l.attrs.eraseName l.eqs) h = _
+  rw [wrapCond_eraseName]
+  exact wrapCond_congr O _ _ (fun h => specGroup_eraseName O _ _ _ h) h
+
+theorem forEach_zipIdx_map {α β : Type} (g : β → α) (l : List β) (f : α × Nat → Hist → Hist)
+    (h : Hist) :
+    forEach (l.map g).zipIdx f h = forEach l.zipIdx (fun p => f (g p.1, p.2)) h := by
+  rw [List.zipIdx_map, forEach_map]
+  rfl
+
+theorem parentBody_eraseNames (O : Oracle) (gi : Nat) (a : Attrs) (subs : List Leaf) (h : Hist) :
+    parentBody O gi a.eraseName (subs.map Leaf.eraseNames) h = parentBody O gi a subs h := by
+  unfold parentBody
+  simp only [forEach_zipIdx_map]
+  rw [forEach_congr (fun p _ h => doSub_eraseNames O gi p.1 p.2 h)]
+  rfl
+
+theorem specParentBody_eraseNames (O : Oracle) (gi : Nat) (a : Attrs) (subs : List Leaf)
+    (h : Hist) :
+    specParentBody O gi a.eraseName (subs.map Leaf.eraseNames) h
+      = specParentBody O gi a subs h := by
+  unfold specParentBody
+  simp only [forEach_zipIdx_map]
+  rw [forEach_congr (fun p _ h => specSub_eraseNames O gi p.1 p.2 h)]
+  rfl
+
+theorem flatMap_eqs_eraseNames (subs : List Leaf) :
+    (subs.map Leaf.eraseNames).flatMap (·.eqs) = subs.flatMap (·.eqs) := by
+  rw [List.flatMap_map]
+  rfl
+
+theorem doTop_eraseNames (O : Oracle) (fuel : Nat) (t : Top) (i : Nat) (h : Hist) :
+    doTop O fuel (t.eraseNames, i) h = doTop O fuel (t, i) h := by
+  cases t with
+  | leaf l =>
+    show doTop O fuel (.leaf ⟨l.attrs.eraseName, l.eqs⟩, i) h = _
+    simp only [doTop]
+    split
+    · rfl
+    · rw [wrapCond_eraseName]
+      apply wrapCond_congr
+      intro h
+      rw [wrapIter_eraseName]
+      unfold wrapIter
+      have hb : doGroup O ⟨i, none⟩ l.attrs.eraseName (makeData l.eqs)
+          = doGroup O ⟨i, none⟩ l.attrs (makeData l.eqs) :=
+        funext (fun h => doGroup_eraseName O _ _ _ h)
+      rw [hb]
+  | parent a subs =>
+    show doTop O fuel (.parent a.eraseName (subs.map Leaf.eraseNames), i) h = _
+    simp only [doTop]
+    rw [wrapCond_eraseName]
+    apply wrapCond_congr
+    intro h
+    rw [wrapIter_eraseName, flatMap_eqs_eraseNames]
+    have hb : parentBody O i a.eraseName (subs.map Leaf.eraseNames) = parentBody O i a subs :=
+      funext (fun h => parentBody_eraseNames O i a subs h)
+    rw [hb]
+
+theorem specTop_eraseNames (O : Oracle) (t : Top) (i : Nat) (h : Hist) :
+    specTop O (t.eraseNames, i) h = specTop O (t, i) h := by
+  cases t with
+  | leaf l =>
+    show specTop O (.leaf ⟨l.attrs.eraseName, l.eqs⟩, i) h = _
+    simp only [specTop]
+    rw [wrapCond_eraseName]
+    apply wrapCond_congr
+    intro h
+    rw [specRepeat_eraseName]
+    have hb : specGroup O ⟨i, none⟩ l.attrs.eraseName l.eqs = specGroup O ⟨i, none⟩ l.attrs l.eqs :=
+      funext (fun h => specGroup_eraseName O _ _ _ h)
+    rw [hb]
+  | parent a subs =>
+    show specTop O (.parent a.eraseName (subs.map Leaf.eraseNames), i) h = _
+    simp only [specTop]
+    rw [wrapCond_eraseName]
+    apply wrapCond_congr
+    intro h
+    rw [specRepeat_eraseName, flatMap_eqs_eraseNames]
+    have hb : specParentBody O i a.eraseName (subs.map Leaf.eraseNames)
+        = specParentBody O i a subs :=
+      funext (fun h => specParentBody_eraseNames O i a subs h)
+    rw [hb]
+
+theorem implRun_eraseNames (O : Oracle) (fuel : Nat) (P : Program) (h : Hist) :
+    implRun O fuel P.eraseNames h = implRun O fuel P h := by
+  unfold implRun
+  cases P with
+  | flat eqs => rfl
+  | groups gs =>
+    cases gs with
+    | nil => rfl
+    | cons g gs =>
+      show forEach ((g :: gs).map Top.eraseNames).zipIdx (doTop O fuel) h
+        = forEach (g :: gs).zipIdx (doTop O fuel) h
+      rw [forEach_zipIdx_map]
+      exact forEach_congr (fun p _ h => doTop_eraseNames O fuel p.1 p.2 h) h
+
+theorem specRun_eraseNames (O : Oracle) (P : Program) (h : Hist) :
+    specRun O P.eraseNames h = specRun O P h := by
+  unfold specRun
+  cases P with
+  | flat eqs => rfl
+  | groups gs =>
+    show forEach (gs.map Top.eraseNames).zipIdx (specTop O) h = forEach gs.zipIdx (specTop O) h
+    rw [forEach_zipIdx_map]
+    exact forEach_congr (fun p _ h => specTop_eraseNames O p.1 p.2 h) h
+
 namespace Example
 /-- two arrays (0: 2 real + 1 ghost, 1: 3 real), an iterated group with two destinations and a
 source-free equation, then a conditional group with two sub-groups (second over ghosts too,
@@ -850,6 +1038,32 @@ def oracle : Oracle where
   size h a real := if a == 0 then (if real then 2 else 3) else (if h.length < 30 then 3 else 2)
   named _ _ _ := 1
   nbrs h _ s i := if h.length < 30 then [i, s] else [s]
+
+/-- the shape of a seeded defect: two top-level groups labelled `density` (the first one's
+condition fails, the second one's holds), and a group `outer` whose two sub-groups are both
+labelled `correct` (first condition holds, second fails) — one label is also shared between
+a top-level group and a sub-group of another parent -/
+def sameNames : Program := .groups [
+  .leaf ⟨{ name := some "density", hasCond := true, hasPre := true, hasPost := true },
+    [⟨1, 0, [], [.init]⟩]⟩,
+  .leaf ⟨{ name := some "density", hasCond := true, hasPre := true, hasPost := true },
+    [⟨2, 0, [], [.init]⟩]⟩,
+  .parent { name := some "outer", hasPre := true, hasPost := true }
+    [⟨{ name := some "correct", hasCond := true, hasPre := true, hasPost := true },
+       [⟨3, 0, [], [.init]⟩]⟩,
+     ⟨{ name := some "correct", hasCond := true, hasPre := true, hasPost := true },
+       [⟨4, 0, [], [.init]⟩]⟩],
+  .parent { name := some "correct" }
+    [⟨{ name := some "density", hasCond := true, hasPost := true }, [⟨5, 0, [], [.init]⟩]⟩]]
+
+/-- conditions by POSITION: group 0 False, group 1 True, 2.0 True, 2.1 False, 3.0 True; one
+particle per array -/
+def posOracle : Oracle where
+  cond _ g := g = ⟨1, none⟩ || g = ⟨2, some 0⟩ || g = ⟨3, some 0⟩
+  conv _ _ := true
+  size _ _ _ := 1
+  named _ _ _ := 0
+  nbrs _ _ _ _ := []
 
 def emptyWithPre : Program := .groups [.leaf ⟨{ hasPre := true }, []⟩]
 def minGtMax : Program :=
